@@ -145,9 +145,8 @@ func checkStructure(t sumtree.Tree, dump []sumtree.VerifEntry, model Model, m ui
 			if len(n.children) > maxFan {
 				maxFan = len(n.children)
 			}
-			if len(n.children) == 0 {
-				bad("struct.empty_node", fmt.Sprintf("L%d", L), fmt.Sprintf("node L%d/%s is stored with no children", L, hx([]byte(n.key))))
-			}
+			// (a stored node without children, or with more than m children, is not contradicted by the
+			// property statement; neither is asserted)
 			for ci, c := range n.children {
 				if c.Nil {
 					continue
